@@ -77,8 +77,9 @@ Cases ==
   \cup {[mod |-> "keccak256", proc |-> "to_bit_interleaved", pat |-> p] : p \in Pats(2)}
   \cup {[mod |-> "keccak256", proc |-> "from_bit_interleaved", pat |-> p] : p \in Pats(2)}
   \cup {[mod |-> "seq", proc |-> "pair", pat |-> <<"rand", sd, i, j>>] : sd \in SeqSeeds, i \in 1 .. Len(SeqProcs), j \in 1 .. Len(SeqProcs)}
-  \cup {[mod |-> "native", proc |-> "hash_memory", pat |-> <<p[1], p[2], n>>] : p \in FeltPats, n \in NativeWords}
-  \cup {[mod |-> "native", proc |-> "hash_memory_even", pat |-> <<p[1], p[2], n>>] : p \in FeltPats, n \in EvenWords}
+  \* (the memory range starts at an even and at an odd address)
+  \cup {[mod |-> "native", proc |-> "hash_memory", pat |-> <<p[1], p[2], n, b>>] : p \in FeltPats, n \in NativeWords, b \in {10000, 10001}}
+  \cup {[mod |-> "native", proc |-> "hash_memory_even", pat |-> <<p[1], p[2], n, b>>] : p \in FeltPats, n \in EvenWords, b \in {10000, 10001}}
   \cup {[mod |-> "native", proc |-> "state_to_digest", pat |-> <<p[1], p[2], 3>>] : p \in FeltPats}
 
 Expect(c) ==
